@@ -144,6 +144,174 @@ pub fn exec_u(w: &mut World, op: &Op, rest: &str, env: &mut Env) {
             }
             env.res(Pool::U, dst);
         }
+        "big" => {
+            // macro-step on operands far above the pool cap, built and consumed inside the step: the size classes that
+            // select Toom-3 multiplication, divide-and-conquer division, the double-word Lehmer guess, recursive
+            // parsing, long exponentiation loops. Only a digest of the result (value mod M, M ~ 2^3999) enters the pool.
+            if cfg!(miri) {
+                return env.skip();
+            }
+            let m_digest = (UBig::ONE << 3999) + UBig::from(0x1234567u32);
+            let f = form;
+            let sz = op.m.unsigned_abs() as usize;
+            // a value of exactly `bits` bits whose content comes from a pool value
+            let wide = |seed: &UBig, bits: usize| -> UBig {
+                let low = seed & UBig::ones(bits.min(4096));
+                (UBig::ONE << (bits - 1)) | (&low << ((bits / 3) % 1500)) | low
+            };
+            let r: UBig = match op.n.unsigned_abs() % 7 {
+                0 => {
+                    // product of two long operands (smaller one >= 193 words in every build for sz % 3 == 0)
+                    let (bx, by) = match sz % 3 {
+                        0 => (12400 + sz % 3000, 12400 + (sz / 7) % 3000),
+                        1 => (6200 + sz % 3000, 6200 + (sz / 7) % 1500),
+                        _ => (14000 + sz % 2000, 3000 + (sz / 7) % 9000),
+                    };
+                    let (x, y) = (wide(&w.u[a], bx), wide(&w.u[b], by));
+                    match f % 4 {
+                        0 => &x * &y,
+                        1 => x.clone() * y.clone(),
+                        2 => {
+                            let mut t = x.clone();
+                            t *= &y;
+                            t
+                        }
+                        _ => &y * x,
+                    }
+                }
+                1 => {
+                    let x = wide(&w.u[a], if sz % 2 == 0 { 12400 + sz % 3900 } else { 6200 + sz % 3000 });
+                    match f % 4 {
+                        0 => x.sqr(),
+                        1 => &x * &x,
+                        2 => x.pow(2),
+                        _ => {
+                            let mut t = x.clone();
+                            t *= x;
+                            t
+                        }
+                    }
+                }
+                2 => {
+                    // long division: divisor of 33..100 words, dividend longer than it by more than 32 words
+                    let d = wide(&w.u[b], 2112 + sz % 4300);
+                    let x = wide(&w.u[a], d.bit_len() + 2200 + (sz / 5) % 6000) + &w.u[ix(op.c)];
+                    let (q, r) = match f % 5 {
+                        0 => (&x).div_rem(&d),
+                        1 => (&x / &d, &x % &d),
+                        2 => {
+                            let mut t = x.clone();
+                            let r = t.div_rem_assign(&d);
+                            (t, r)
+                        }
+                        3 => {
+                            let ring = ConstDivisor::new(d.clone());
+                            (&x).div_rem(&ring)
+                        }
+                        _ => x.clone().div_rem(d.clone()),
+                    };
+                    env.emit_ubig("r", &(&r % &m_digest));
+                    env.emit_u64("rbits", r.bit_len() as u64);
+                    q
+                }
+                3 => {
+                    // gcd of operands with a planted common factor, >= 300 words in every build for sz % 2 == 0
+                    let g0 = (&w.u[ix(op.c)] & UBig::ones(500)) | UBig::ONE;
+                    let bits = if sz % 2 == 0 { 19300 + sz % 3000 } else { 9700 + sz % 3000 };
+                    let (x, y) = (&g0 * wide(&w.u[a], bits), &g0 * wide(&w.u[b], bits - 100 - sz % 700));
+                    match f % 4 {
+                        0 => (&x).gcd(&y),
+                        1 => x.clone().gcd(y.clone()),
+                        2 => (&y).gcd(&x),
+                        _ => {
+                            let (g, s, t) = (&x).gcd_ext(&y);
+                            // Bezout identity (the coefficients themselves may legitimately differ between builds)
+                            let ok = IBig::from(x.clone()) * s + IBig::from(y.clone()) * t == IBig::from(g.clone());
+                            if !ok && !env.forms_oracle {
+                                // information only (transcripts): the identity is not a call-form matter, and
+                                // gcd_ext(2^12096, 2^11299 + 3*2^766 + 3) is known to break it (DESIGN, Appendix A)
+                                env.emit_u64("bezout_broken", 1);
+                            }
+                            g
+                        }
+                    }
+                }
+                4 => {
+                    // print and parse back a number whose digit count is beyond the recursive-parsing threshold
+                    let bits = match sz % 3 {
+                        0 => 16300 + sz % 1500,
+                        1 => 7750 + sz % 900,
+                        _ => 4000 + sz % 12000,
+                    };
+                    let x = wide(&w.u[a], bits);
+                    let radix = [10u32, 3, 36, 7, 16, 10][(sz / 3) % 6];
+                    let text = x.in_radix(radix).to_string();
+                    env.emit_u64("digits", text.len() as u64);
+                    let y = match f % 2 {
+                        0 => UBig::from_str_radix(&text, radix),
+                        _ => IBig::from_str_radix(&text, radix).map(|v| v.unsigned_abs()),
+                    };
+                    drop(text);
+                    match y {
+                        Ok(y) => {
+                            env.emit_u64("same", (y == x) as u64);
+                            y
+                        }
+                        Err(_) => {
+                            env.emit_u64("refused", 1);
+                            UBig::ZERO
+                        }
+                    }
+                }
+                5 => {
+                    // long exponentiation loops: small base, large exponent
+                    let base = (&w.u[a] & UBig::ones(1 + sz % 40)) | UBig::from(2u8);
+                    let exp = [6usize, 17, 63, 64, 65, 70, 127, 128, 257, 500][(sz / 41) % 10];
+                    if base.bit_len() * exp > GUARD_BITS {
+                        return env.skip();
+                    }
+                    match f % 2 {
+                        0 => base.pow(exp),
+                        _ => {
+                            let mut t = UBig::ONE;
+                            for _ in 0..exp {
+                                t *= &base;
+                            }
+                            t
+                        }
+                    }
+                }
+                _ => {
+                    // roots of high order (Newton loop on x.pow(n - 1)) around the bits <= n shortcut
+                    let x = &w.u[a];
+                    let bl = x.bit_len().max(2);
+                    // (orders in between make dashu's Newton iteration overshoot to 2^(n-1) times the root and crawl back
+                    // in millions of steps: a termination matter, not judged by this simulator - kept out of the workload)
+                    let n = match sz % 6 {
+                        0 => 6 + sz % 15,
+                        1 => bl - 1,
+                        2 => bl,
+                        3 => bl + 1,
+                        4 => 3 + sz % 4,
+                        _ => 7,
+                    };
+                    if n > 5000 {
+                        return env.skip();
+                    }
+                    let r0 = x.nth_root(n);
+                    // defining inequality r^n <= x < (r+1)^n, only where the powers stay small
+                    if r0.bit_len() * n <= GUARD_BITS && (r0.bit_len() + 1) * n <= GUARD_BITS {
+                        let lo = r0.pow(n);
+                        let hi = (&r0 + UBig::ONE).pow(n);
+                        env.emit_u64("root_ok", (lo <= *x && *x < hi) as u64);
+                    }
+                    r0
+                }
+            };
+            env.emit_u64("bits", r.bit_len() as u64);
+            w.u[dst] = if r.bit_len() > 3999 { &r % &m_digest } else { r };
+            env.res(Pool::U, dst);
+        }
         "pow2" => {
             if !shl_ok(1, op.n) {
                 return env.skip();
@@ -341,6 +509,48 @@ pub fn exec_u(w: &mut World, op: &Op, rest: &str, env: &mut Env) {
             w.u[a].set_bit(op.n as usize);
             env.res(Pool::U, a);
         }
+        "huge" => {
+            // absurd sizes on purpose: every route must end in the documented "too much memory" panic or an allocator
+            // refusal (a panic), never in a wrapped size computation
+            if cfg!(miri) {
+                return env.skip();
+            }
+            let k = op.n.unsigned_abs() as usize % 4000;
+            let big = match op.m.unsigned_abs() % 4 {
+                0 => usize::MAX - k,
+                1 => (1usize << 40) + k,
+                2 => usize::MAX / 2 + k,
+                _ => (1usize << 36) + 64 * k,
+            };
+            let x = own!(w.u[a], take);
+            let r: UBig = match form % 7 {
+                0 => {
+                    if x.is_zero() {
+                        UBig::ONE << big
+                    } else {
+                        x << big
+                    }
+                }
+                1 => UBig::ones(big),
+                2 => {
+                    let mut t = x | UBig::ONE;
+                    t <<= big;
+                    t
+                }
+                3 => UBig::from_chunks(w.u.iter().chain(core::iter::once(&UBig::ONE)), big),
+                4 => UBig::ones(big) + x,
+                5 => IBig::from(x | UBig::ONE).unsigned_abs() << &big,
+                _ => {
+                    let mut t = x;
+                    t.set_bit(big);
+                    t
+                }
+            };
+            // (not reached in a correct library)
+            env.emit_u64("returned_bits", r.bit_len() as u64);
+            w.u[dst] = UBig::ZERO;
+            env.res(Pool::U, dst);
+        }
         "clearbit" => {
             if op.n < 0 {
                 return env.skip();
@@ -405,6 +615,25 @@ pub fn exec_u(w: &mut World, op: &Op, rest: &str, env: &mut Env) {
             w.u[a] = UBig::ZERO;
             env.res(Pool::U, a);
         }
+        "parse" => {
+            let radix = [10u32, 16, 2, 8, 36, 7, 10, 3][(op.n.unsigned_abs() % 8) as usize];
+            let t = mutated_text(&w.u[a], false, radix, op.m.unsigned_abs(), op.n.unsigned_abs() as usize / 8);
+            let r = match form % 4 {
+                0 => UBig::from_str_radix(&t, radix).map(|v| (v, radix)),
+                1 => t.parse::<UBig>().map(|v| (v, 10)),
+                2 => UBig::from_str_with_radix_prefix(&t),
+                _ => UBig::from_str_with_radix_default(&t, radix),
+            };
+            drop(t);
+            match r {
+                Ok((v, rdx)) => {
+                    env.emit_u64("radix", rdx as u64);
+                    w.u[dst] = v;
+                    env.res(Pool::U, dst);
+                }
+                Err(_) => env.emit_u64("refused", 1),
+            }
+        }
         "str" => {
             let radix = (op.n.unsigned_abs() % 35 + 2) as u32;
             let s = match form % 3 {
@@ -455,7 +684,26 @@ pub fn exec_u(w: &mut World, op: &Op, rest: &str, env: &mut Env) {
             let cb = (op.n.unsigned_abs() as usize % 200) + 1;
             let chunks = w.u[a].to_chunks(cb);
             env.emit_u64("nchunks", chunks.len() as u64);
+            for c in chunks.iter().take(6) {
+                env.emit_ubig("c", c);
+            }
             w.u[dst] = UBig::from_chunks(chunks.iter(), cb);
+            env.res(Pool::U, dst);
+        }
+        "ochunks" => {
+            // from_chunks with chunks wider than chunk_bits (documented as allowed): sum(C_i * 2^(i * chunk_bits))
+            let cb = [1usize, 7, 31, 32, 33, 63, 64, 65, 96, 128, 1000, 4096][(op.n.unsigned_abs() % 12) as usize];
+            let cnt = 1 + (op.m.unsigned_abs() as usize % NP);
+            w.u[dst] = match form % 2 {
+                0 => UBig::from_chunks(w.u.iter().take(cnt), cb),
+                _ => {
+                    let mut acc = UBig::ZERO;
+                    for (i, c) in w.u.iter().take(cnt).enumerate() {
+                        acc += c << (i * cb);
+                    }
+                    acc
+                }
+            };
             env.res(Pool::U, dst);
         }
         "query" => {
@@ -934,6 +1182,26 @@ pub fn exec_i(w: &mut World, op: &Op, rest: &str, env: &mut Env) {
         "drop" => {
             w.i[a] = IBig::ZERO;
             env.res(Pool::I, a);
+        }
+        "parse" => {
+            let radix = [10u32, 16, 2, 8, 36, 7, 10, 3][(op.n.unsigned_abs() % 8) as usize];
+            let (sign, mag) = (w.i[a].sign(), w.i[a].clone().unsigned_abs());
+            let t = mutated_text(&mag, sign == Sign::Negative, radix, op.m.unsigned_abs(), op.n.unsigned_abs() as usize / 8);
+            let r = match form % 4 {
+                0 => IBig::from_str_radix(&t, radix).map(|v| (v, radix)),
+                1 => t.parse::<IBig>().map(|v| (v, 10)),
+                2 => IBig::from_str_with_radix_prefix(&t),
+                _ => IBig::from_str_with_radix_default(&t, radix),
+            };
+            drop(t);
+            match r {
+                Ok((v, rdx)) => {
+                    env.emit_u64("radix", rdx as u64);
+                    w.i[dst] = v;
+                    env.res(Pool::I, dst);
+                }
+                Err(_) => env.emit_u64("refused", 1),
+            }
         }
         "str" => {
             let radix = (op.n.unsigned_abs() % 35 + 2) as u32;
@@ -1492,6 +1760,58 @@ pub fn exec_prim(w: &mut World, op: &Op, fam: &str, rest: &str, env: &mut Env) {
     }
 }
 
+
+/// text of an integer, deliberately not in the shape dashu prints: leading zeros (enough to need a heap buffer that must
+/// shrink back), underscores, sign, radix prefix, a wrong digit somewhere
+fn mutated_text(mag: &UBig, negative: bool, radix: u32, kind: u64, pos: usize) -> String {
+    let body = mag.in_radix(radix).to_string();
+    let mut t = String::new();
+    if negative {
+        t.push('-');
+    } else if kind % 3 == 1 {
+        t.push('+');
+    }
+    match (kind / 3) % 4 {
+        1 => t.push_str(match radix {
+            2 => "0b",
+            8 => "0o",
+            16 => "0x",
+            _ => "",
+        }),
+        2 => t.push_str("0x"),
+        _ => {}
+    }
+    match (kind / 12) % 5 {
+        1 => t.push_str(&"0".repeat(1 + pos % 200)),
+        2 => t.push_str(&"0".repeat(70)),
+        _ => {}
+    }
+    let mut b: Vec<char> = body.chars().collect();
+    match (kind / 60) % 6 {
+        1 => {
+            let at = 1 + pos % b.len().max(1);
+            if at < b.len() {
+                b.insert(at, '_');
+            }
+        }
+        2 => {
+            let mut i = 3;
+            while i < b.len() {
+                b.insert(i, '_');
+                i += 4;
+            }
+        }
+        3 => {
+            let at = pos % b.len().max(1);
+            b[at] = ['z', '/', ' ', '.', '-', '+', 'G', '9'][(kind / 360 % 8) as usize];
+        }
+        4 => b.push('_'),
+        _ => {}
+    }
+    t.extend(b);
+    t
+}
+
 // ------------------------------------------------------------------ modular ring macro-step
 /// `m.ring`: modulus U[a], elements from U[b], I[c]; n selects the operation chain; result residue -> U[dst].
 /// The ring and its elements live inside this step only.
@@ -1594,6 +1914,16 @@ pub fn exec_mod(w: &mut World, op: &Op, rest: &str, env: &mut Env) {
             let r2 = ConstDivisor::new(w.u[b].clone() + UBig::from(2u8));
             let x = r1.reduce(w.i[c].clone());
             let y = r2.reduce(w.i[c].clone());
+            {
+                // clone_from across rings of different sizes: the target takes ring and value of the source
+                let mut t = x.clone();
+                t.clone_from(&y);
+                env.emit_ubig("cf", &t.residue());
+                env.emit_u64("cf_eq", (t == y) as u64);
+                let mut t2 = y.clone();
+                t2.clone_from(&x);
+                env.emit_ubig("cf2", &(t2 + x.clone()).residue());
+            }
             let z = if op.n & 1 == 1 { x + y } else { x * y };
             w.u[dst] = z.residue();
             env.res(Pool::U, dst);
